@@ -362,3 +362,14 @@ func init() {
 		return x.havocVal(hint, resultType(in, c), reach), nil
 	})
 }
+
+func init() {
+	// strOf(x any): the string carried by an interface value
+	specLibFuncs["strOf"] = func(x *FnExec, c *evalCtx, args []Val) (Val, error) {
+		_, unbox := x.q.boxFn(types.Typ[types.String])
+		return Val{S: fmt.Sprintf("(%s %s)", unbox, args[0].S), T: types.Typ[types.String]}, nil
+	}
+	specLibFuncs["isStr"] = func(x *FnExec, c *evalCtx, args []Val) (Val, error) {
+		return Val{S: and(not(eq(args[0].S, "inil")), eq("(itag "+args[0].S+")", fmt.Sprint(x.q.typeID(types.Typ[types.String])))), T: types.Typ[types.Bool]}, nil
+	}
+}
